@@ -168,7 +168,12 @@ def run_history(case, ctx: Ctx):
         ctx.close(f"{tag}.mean", gm, wm, rtol=tol, atol=tol, scale=scale)
         ctx.close(f"{tag}.cov", gc, wc, rtol=tol, atol=tol, scale=scale)
 
-    ops = list(case["ops"]) + [{"op": "predict", "x": case["probe"], "s": {}}]
+    # final probes: under default settings and under every settings combination an earlier prediction of the history ran with
+    probe_settings = [{}]
+    for o in case["ops"]:
+        if o["op"] == "predict" and o.get("s") and o["s"] not in probe_settings and len(probe_settings) < 4:
+            probe_settings.append(o["s"])
+    ops = list(case["ops"]) + [{"op": "predict", "x": case["probe"], "s": ps} for ps in probe_settings]
     for i, op in enumerate(ops):
         name = op["op"]
         kinds.append(name)
@@ -252,7 +257,16 @@ def run_history(case, ctx: Ctx):
                     for k in sd:
                         if k.split(".")[-1].startswith("raw_") and sd[k].is_floating_point():
                             sd[k] = sd[k] + op["delta"]
-                model.load_state_dict(sd, strict=True)
+                part = op.get("keys")
+                if part:
+                    # partial state dict (strict=False): only the entries below one sub-module prefix, e.g. only the kernel's
+                    prefixes = sorted({".".join(k.split(".")[: part["depth"]]) for k in sd})
+                    pre = prefixes[part["idx"] % len(prefixes)]
+                    sd = {k: v for k, v in sd.items() if k == pre or k.startswith(pre + ".")}
+                    model.load_state_dict(sd, strict=False)
+                    ctx.label("op=load_state.partial")
+                else:
+                    model.load_state_dict(sd, strict=True)
                 saw_mutation_between = True
             elif name == "fantasy":
                 if fam not in EXACT or fam in ("sgpr",):
@@ -338,7 +352,9 @@ def op_strategy(draw, fam, d, xb, yb, t=None, mb=()):
     elif name == "step":
         op.update(opt=draw(st.sampled_from(["sgd", "adam"])), lr=draw(st.sampled_from([0.01, 0.05, 0.1])), n=draw(st.integers(1, 2)))
     elif name == "load_state":
-        op.update(which=draw(st.sampled_from(["snapshot0", "perturbed"])), delta=draw(st.sampled_from([-0.5, 0.3, 1.0])))
+        op.update(which=draw(st.sampled_from(["snapshot0", "perturbed", "perturbed"])), delta=draw(st.sampled_from([-0.5, 0.3, 1.0])))
+        if draw(st.booleans()):
+            op["keys"] = {"depth": draw(st.integers(1, 2)), "idx": draw(st.integers(0, 7))}
     elif name == "set_train_data":
         n2 = draw(st.integers(1, 5))
         op.update(X=draw(kern.points(n2, d, xb)), y=draw(kern.arr(list(yb) + ([n2, t] if t else [n2]), kern.REAL)), targets_only=draw(st.booleans()),
@@ -389,6 +405,7 @@ def _canon(fam):
         {"op": "train_eval"},
         {"op": "step", "opt": "sgd", "lr": 0.05, "n": 1},
         {"op": "load_state", "which": "perturbed", "delta": 0.3},
+        {"op": "load_state", "which": "perturbed", "delta": -0.4, "keys": {"depth": 1, "idx": 0}},  # only covar_module.*
         {"op": "likelihood_call", "x": xs, "s": {}},
     ]
     if fam in EXACT:
@@ -412,11 +429,11 @@ def enumerate_histories(tier):
 
 RULE = ("histories = lists of public operations (predict under generated settings and test batch shapes, predict + backward under "
         "detach_test_caches(False), likelihood call, prior-mode call, train()/eval(), optimiser steps in training mode, set_train_data "
-        "(inputs and/or targets, strict or not, possibly another n), load_state_dict (snapshot or perturbed), get_fantasy_model (dropped or "
+        "(inputs and/or targets, strict or not, possibly another n), load_state_dict (snapshot or perturbed; whole or only the entries of one sub-module with strict=False), get_fantasy_model (dropped or "
         "adopted)) over 8 model families (exact default / batch / KISS-GP / SGPR / Kronecker multitask; SVGP whitened / unwhitened / "
         "natural). Generated histories of 1-8 operations on generated recipes, and ALL sequences of length <= 2 (quick) / <= 3 (thorough) "
-        "over a 10-14 symbol alphabet of canonical operations for 6 families. Oracle: a fresh model with copied tensors and the current "
-        "data predicts the same distribution. Non-trivial: the history contains predict ... state-changing operation ... predict; "
+        "over an 11-15 symbol alphabet of canonical operations for 6 families. Oracle: a fresh model with copied tensors and the current "
+        "data predicts the same distribution, probed at the end under default settings and under every settings combination used earlier. Non-trivial: the history contains predict ... state-changing operation ... predict; "
         "distinct = distinct canonical case.")
 
 SUBCHECKS = [
